@@ -1690,7 +1690,7 @@ func execTxn(ops []string, st *Stats) (outs []string, oracle []string) {
 			want := s.v.State().NextTxnTs - 1
 			if !withTimeout(func() { nt.txn = s.db.NewTransaction(nt.update) }) {
 				fail(i, "[reader-stranded] NewTransaction blocked although no commit is pending")
-				panic("NewTransaction stuck; cannot continue the session")
+				panic(barrierStuck{"database (NewTransaction did not return)"})
 			}
 			nt.readTs = nt.txn.ReadTs()
 			if nt.readTs != want {
@@ -1847,7 +1847,7 @@ func execTxn(ops []string, st *Stats) (outs []string, oracle []string) {
 			var err error
 			if !withTimeout(func() { err = t.txn.Commit() }) {
 				fail(i, "[commit-stuck] Commit did not return")
-				panic("Commit stuck; cannot continue the session")
+				panic(barrierStuck{"database (Commit did not return)"})
 			}
 			t.closed = true
 			t.ref.state = rtClosed
